@@ -24,8 +24,9 @@ impl Rng {
     pub fn below(&mut self, n: usize) -> usize {
         (self.next() % (n as u64)) as usize
     }
-    /// uniform in lo..=hi
+    /// uniform in lo..=hi (an empty interval, hi < lo, yields lo)
     pub fn range(&mut self, lo: usize, hi: usize) -> usize {
+        let hi = hi.max(lo);
         lo + self.below(hi - lo + 1)
     }
     pub fn chance(&mut self, num: usize, den: usize) -> bool {
